@@ -165,6 +165,136 @@ fn chain_case(rng: &mut Rng, rep: &mut Report) {
     }
 }
 
+/// (a2) the stream unzip.rs really opens: the crate's cloneable reader (several clones with own positions, one shared
+/// volume chain whose position is cached) compared per clone with the concatenation
+fn clone_reader_case(rng: &mut Rng, rep: &mut Report) {
+    let n = 1 + match rng.below(4) {
+        0 => rng.usize_below(12),
+        _ => rng.usize_below(600),
+    };
+    let data: Vec<u8> = (0..n).map(|i| (i as u32).wrapping_mul(2654435761).rotate_right(11) as u8 ^ (i as u8).wrapping_mul(3)).collect();
+    let vols = split_volumes(rng, &data);
+    let sizes: Vec<usize> = vols.iter().map(|v| v.len()).collect();
+    let chain = SeekableChain::new(vols.into_iter().map(Cursor::new).collect::<Vec<_>>());
+    let mut readers = vec![(adlt::utils::cloneable_seekable_reader::verif_cloneable_reader(chain), 0usize)];
+    let nops = 10 + rng.usize_below(70);
+    let mut ops: Vec<String> = Vec::new();
+    let mut short_reads = 0u64;
+    let mut behind_short = 0u64;
+    let mut clones = 0u64;
+    rep.inc("evaluations");
+    rep.inc("clone_reader_histories");
+    let res = crate::guard::catch(|| -> Option<(String, String)> {
+        // one read on clone `ri`, checked against the concatenation; returns (position before, requested, returned)
+        fn read_checked<R: Read>(r: &mut (R, usize), ri: usize, k: usize, data: &[u8], ops: &mut Vec<String>) -> Result<(usize, usize, usize), (String, String)> {
+            let pos = r.1;
+            let mut b = vec![0u8; k];
+            let got = r.0.read(&mut b).map_err(|e| ("clone-reader:read-error".to_string(), format!("read({}) at {}: {}", k, pos, e)))?;
+            ops.push(format!("r{}.read({})@{}->{}", ri, k, pos, got));
+            if got > k || pos + got > data.len() || b[..got] != data[pos..pos + got] {
+                return Err(("clone-reader:read-content".into(), format!("clone {} read({}) at {} returned {} bytes that differ from the concatenation", ri, k, pos, got)));
+            }
+            if got == 0 && k > 0 && pos < data.len() {
+                return Err(("clone-reader:early-eof".into(), format!("clone {} read({}) at {} of {} returned 0", ri, k, pos, data.len())));
+            }
+            r.1 = pos + got;
+            Ok((pos, k, got))
+        }
+        for _ in 0..nops {
+            let ri = rng.usize_below(readers.len());
+            match rng.below(20) {
+                0..=10 => {
+                    let k = match rng.below(6) {
+                        0 => 0,
+                        1 => 1,
+                        2 => n + 10,
+                        _ => rng.usize_below(n / 2 + 4),
+                    };
+                    let (pos, k, got) = match read_checked(&mut readers[ri], ri, k, &data, &mut ops) {
+                        Ok(x) => x,
+                        Err(e) => return Some(e),
+                    };
+                    if got < k && pos + got < n {
+                        short_reads += 1;
+                        // the access right behind the range that was asked for (not behind what was delivered), by this or another clone
+                        if pos + k <= n && rng.chance(1, 2) {
+                            let rj = rng.usize_below(readers.len());
+                            let t = pos + k;
+                            let sf = if rng.chance(1, 2) { SeekFrom::Start(t as u64) } else { SeekFrom::Current(t as i64 - readers[rj].1 as i64) };
+                            match readers[rj].0.seek(sf) {
+                                Ok(a) if a == t as u64 => readers[rj].1 = t,
+                                other => return Some(("clone-reader:seek-result".into(), format!("clone {} seek {:?} answered {:?} expected {}", rj, sf, other.ok(), t))),
+                            }
+                            ops.push(format!("r{}.seek({:?})", rj, sf));
+                            let k2 = 1 + rng.usize_below(8);
+                            if let Err(e) = read_checked(&mut readers[rj], rj, k2, &data, &mut ops) {
+                                return Some(e);
+                            }
+                            behind_short += 1;
+                        }
+                    }
+                }
+                11..=16 => {
+                    let pos = readers[ri].1 as i64;
+                    let t = rng.usize_below(n + 1) as i64;
+                    let sf = match rng.below(3) {
+                        0 => SeekFrom::Start(t as u64),
+                        1 => SeekFrom::End(t - n as i64),
+                        _ => SeekFrom::Current(t - pos),
+                    };
+                    ops.push(format!("r{}.seek({:?})", ri, sf));
+                    match readers[ri].0.seek(sf) {
+                        Ok(a) if a == t as u64 => readers[ri].1 = t as usize,
+                        other => return Some(("clone-reader:seek-result".into(), format!("clone {} seek {:?} answered {:?} expected {}", ri, sf, other.ok(), t))),
+                    }
+                }
+                _ => {
+                    if readers.len() < 4 {
+                        let c = (readers[ri].0.clone(), readers[ri].1);
+                        ops.push(format!("r{}=r{}.clone()", readers.len(), ri));
+                        readers.push(c);
+                        clones += 1;
+                    }
+                }
+            }
+        }
+        // drain every clone
+        for ri in 0..readers.len() {
+            let pos = readers[ri].1;
+            let mut rest = Vec::new();
+            let mut buf = [0u8; 41];
+            loop {
+                let r = match readers[ri].0.read(&mut buf) {
+                    Ok(r) => r,
+                    Err(e) => return Some(("clone-reader:read-error".into(), format!("drain: {}", e))),
+                };
+                if r == 0 || rest.len() > n + 10 {
+                    break;
+                }
+                rest.extend_from_slice(&buf[..r]);
+            }
+            if rest != data[pos..] {
+                return Some(("clone-reader:drain".into(), format!("draining clone {} from {} returned {} bytes, expected {} (or other bytes; volume sizes {:?})", ri, pos, rest.len(), n - pos, sizes)));
+            }
+        }
+        None
+    });
+    rep.add("clone_reader_short_reads_at_volume_borders", short_reads);
+    rep.add("clone_reader_accesses_right_behind_a_short_read", behind_short);
+    rep.add("clone_reader_clones", clones);
+    let rp = || json!({"kind":"c20-clone-reader","volume_sizes": sizes, "ops": ops.iter().rev().take(40).rev().collect::<Vec<_>>()});
+    match res {
+        Err(pi) => rep.violation(&pi.class(), format!("panic at {}:{} {}", pi.file, pi.line, pi.msg), rp()),
+        Ok(Some((c, d))) => rep.violation(&c, d, rp()),
+        Ok(None) => {
+            if short_reads > 0 && clones > 0 {
+                rep.inc("nontrivial");
+                rep.sig(fnv(&[b'c', sizes.len() as u8, (n / 50) as u8, short_reads.min(10) as u8, behind_short.min(5) as u8, clones as u8]));
+            }
+        }
+    }
+}
+
 // ---------------------------------------------------------------- raw zip writer (stored entries)
 
 fn crc32(data: &[u8]) -> u32 {
@@ -606,6 +736,8 @@ pub fn run(p: &Params) -> Report {
                 rep.inc("nontrivial_archives");
                 rep.sig(fnv(&[b'x', (i % 251) as u8, via as u8]) ^ rng.next_u64() % 4096);
             }
+        } else if i % 4 == 1 {
+            clone_reader_case(&mut rng, &mut rep);
         } else {
             chain_case(&mut rng, &mut rep);
         }
